@@ -4,7 +4,8 @@
 From ClapModel Require Import Base.Bytes Base.Machine Base.Utf8.
 From ClapModel Require Import Parse.Cmd Parse.Build Parse.Valid Parse.Matcher Parse.Errors Parse.Validator Parse.Parser.
 From ClapModel Require Import ParseProofs.Unparse ParseProofs.UnparseTree.
-From ClapModel Require Import Derive.DeriveModel Derive.DeriveProofs Derive.DeriveCmd Derive.DeriveArgs Derive.DeriveParse.
+From ClapModel Require Import Derive.DeriveModel Derive.DeriveProofs Derive.DeriveCmd Derive.DeriveArgs Derive.DeriveParse Derive.DeriveUpdate.
+From ClapModel Require Import ParseProofs.Actions.
 From Coq Require Import ZArith List Bool Lia.
 Import ListNotations.
 Open Scope N_scope.
@@ -67,3 +68,36 @@ Lemma ex_conv : conv (built d b_prog) = true /\ wf_inv (built d b_prog) (ILeaf (
   /\ render_inv (ILeaf (nodes_items (d_nodes d) v)) = argv.
 Proof. split; [|split]; vm_compute; reflexivity. Qed.
 End ParseEx.
+
+(** When can extraction fail after the command accepted the line?  When the generated command does not declare the
+    requiredness extraction relies on: a plain field with the explicit attribute [required = false] (corpus type
+    BPlainNotRequired; model = implementation).  The command accepts the empty line, extraction reports
+    MissingRequiredArgument. *)
+Module NotRequiredEx.
+Definition fn : field := mkField [110] SynPath TStr (KLong [110;110]) None None (Some false) None None false.
+Definition d : dinput := mkDinput b_prog [83] (NCons (NArg fn) NNil).
+Lemma ex_extract_fails :
+  exists m, parse_top (derive_cmd d) [b_prog] = OOk m /\ extract d m = XErr EMissingRequiredArgument
+            /\ derived_parse d [b_prog] = PError EMissingRequiredArgument.
+Proof. eexists. split; [vm_compute; reflexivity|]. split; vm_compute; reflexivity. Qed.
+End NotRequiredEx.
+
+(** update: the line [--vv -x=z] names the flag and the vector; the [Option<u8>] field [oo] has no occurrence and
+    no default, and keeps its value [Some(7)] (the counter [c], which has the action default "0", is reset: the
+    recorded finding C15-update-default-reset) *)
+Module UpdateEx.
+Definition its : list item := [ItLong [118;118]; ItCluster [] (TEq 120 [122])].
+Definition v0 : list dval := [DOne (SvBool false); DOpt (Some (SvInt 7)); DVec [SvStr [97]]; DOne (SvInt 3)].
+Definition v1 : list dval := [DOne (SvBool true); DOpt (Some (SvInt 7)); DVec [SvStr [122]]; DOne (SvInt 0)].
+Lemma ex_update :
+  fields_only (d_nodes ParseEx.d) = true /\ In ParseEx.fo (fields_of (d_nodes ParseEx.d)) /\ bf_default ParseEx.fo = []
+  /\ valid (with_bin (derive_cmd_for_update ParseEx.d) b_prog) = true
+  /\ wf_inv (builtu ParseEx.d b_prog) (ILeaf its) = true
+  /\ Actions.count_occ (f_id ParseEx.fo) (occs (builtu ParseEx.d b_prog) 1 its) = 0%nat
+  /\ render its = [[45;45;118;118]; [45;120;61;122]]
+  /\ derived_update ParseEx.d v0 (b_prog :: render its) = PValue v1
+  /\ field_at (d_nodes ParseEx.d) v1 (f_id ParseEx.fo) = Some (DOpt (Some (SvInt 7))).
+Proof.
+  split; [reflexivity|]. split; [right; left; reflexivity|]. repeat split; vm_compute; reflexivity.
+Qed.
+End UpdateEx.
